@@ -33,6 +33,9 @@ M = [
     ("m09", "C05", "src/production/connection_optimized.rs", "                        if self.buffer.len() >= min_pipeline_buffer && !self.in_transaction {", "                        if self.buffer.len() >= min_pipeline_buffer {", r"R05\.1"),
     ("m10", "C05", "src/production/connection_optimized.rs", "                            Command::Discard => {\n                                self.in_transaction = false;\n                                self.transaction_queue.clear();\n                                self.transaction_errors = false;\n                                self.watched_keys.clear();",
      "                            Command::Discard => {\n                                self.in_transaction = false;\n                                self.transaction_queue.clear();\n                                self.transaction_errors = false;", r"R05\.2"),
+    ("m42", "C05", "src/redis/executor/transaction_ops.rs", "        self.in_transaction = false;\n        self.queued_commands.clear();\n        self.watched_keys.clear();\n", "        self.in_transaction = false;\n        self.queued_commands.clear();\n", r"R05\.2:executor"),
+    ("m43", "C05", "src/redis/executor/mod.rs", "                Command::Exec | Command::Discard | Command::Multi => {}", "                Command::Exec | Command::Discard | Command::Multi | Command::Ping(_) => {}", r"R05\.1:executor"),
+    ("m44", "C05", "src/redis/executor/transaction_ops.rs", "commands.into_iter().map(|cmd| self.execute(&cmd)).collect();", "commands.into_iter().skip(1).map(|cmd| self.execute(&cmd)).collect();", r"R05\.3:executor"),
     ("m11", "C06", "src/replication/state/shard_state.rs", "            Some(local) => local.merge(&delta.value),", "            Some(_local) => delta.value,", r"R06\.3"),
     ("m12", "C07", "src/replication/lattice.rs", "            positive: self.positive.merge(&other.positive),\n            negative: self.negative.merge(&other.negative),", "            positive: self.positive.merge(&other.positive),\n            negative: self.negative.merge(&other.positive),", r"R07\.1"),
     ("m13", "C07", "src/replication/lattice.rs", "        if other.timestamp > self.timestamp {\n            other.clone()", "        if other.timestamp >= self.timestamp {\n            other.clone()", r"R07\.5"),
